@@ -38,12 +38,14 @@ ROPT_KEYS = ["return_record_name", "return_record_name_override", "return_named_
 
 
 def expr(c):
-    return "run_c09 %s %s %s %s %s" % (G.wopts(**c.wopts), G.ropts(**c.ropts), G.env_to_coq(c.named),
-                                       G.schema_to_coq(c.parsed), G.py_to_coq(c.datum))
+    wo, en, sc, dv = G.wopts(**c.wopts), G.env_to_coq(c.named), G.schema_to_coq(c.parsed), G.py_to_coq(c.datum)
+    return '(run_c09 %s %s %s %s %s ++ ";C0:" ++ run_closb0 %s %s %s %s)' % (wo, G.ropts(**c.ropts), en, sc, dv, wo, en, sc, dv)
 
 
 def parse_model(m):
     """dict with keys A, W, flags, R, CL -- or {'status': 'E'|'U'|'FUEL'}"""
+    if m is not None and not m.startswith("A:") and ";C0:" in m:
+        m = m.split(";C0:", 1)[0]
     if m is None or not m.startswith("A:"):
         return {"status": m}
     out = {"status": "ok"}
@@ -51,6 +53,10 @@ def parse_model(m):
     w, rest = rest.split(";", 1)
     flags, rest = rest.split(";R:", 1)
     r, cl = rest.rsplit(";CL:", 1)
+    c0 = "?"
+    if ";C0:" in cl:
+        cl, c0 = cl.rsplit(";C0:", 1)
+    out["C0"] = c0
     cb = "?"
     if ";CB:" in cl:
         cl, cb = cl.rsplit(";CB:", 1)
@@ -146,6 +152,17 @@ def check_case(ctx, c, m, stats):
         opts = "named_type" if c.ropts.get("return_named_type") else ("record_name" if c.ropts.get("return_record_name") else "no-reporting-option")
         ctx.violation("corr:named-read", c.to_json(), impl=rt[:1500], model=pm["R"][:1500], signature="C09:named-read:" + opts,
                       found_input=True, detail="value returned by schemaless_reader differs from the model's reader under these options")
+    # ---- closb0 (side condition of C01_normal_form_fixed): true => reading without names and writing back gives the same bytes
+    c0 = pm.get("C0", "?")
+    if c0[:1] in ("0", "1"):
+        stats["closb0_total"] = stats.get("closb0_total", 0) + 1
+        if c0[0] == "1":
+            stats["closb0_true"] = stats.get("closb0_true", 0) + 1
+            if c0[1:2] != "s":
+                ctx.violation("side-condition", c.to_json(), impl=None, model=c0, signature="C01:normal-form-theorem-contradicted-in-model",
+                              found_input=False, kind="broken-obligation", detail="closb0 is true but the model's read-then-write differs")
+        elif c0[1:2] == "s":
+            stats["closb0_false_but_fixed"] = stats.get("closb0_false_but_fixed", 0) + 1
     # ---- the closure theorem's side condition evaluated in the model: closb => the model's closure holds (C09_closure)
     if pm.get("CB") == "1":
         stats["closb_true"] = stats.get("closb_true", 0) + 1
@@ -192,6 +209,8 @@ def run(ctx):
     ctx.notes["closb_true(model side condition of C09_closure)"] = stats.get("closb_true", 0)
     ctx.notes["closure_same_with_closb_true"] = stats.get("closure_same_and_closb", 0)
     ctx.notes["closb_true_but_harness_rule_na"] = stats.get("closb_true_but_rule_na", 0)
+    ctx.notes["closb0_true/evaluated (C01_normal_form_fixed side condition)"] = [stats.get("closb0_true", 0), stats.get("closb0_total", 0)]
+    ctx.notes["closb0_false_but_model_fixed_point_holds"] = stats.get("closb0_false_but_fixed", 0)
     share = stats["raised"] / max(1, len(cases))
     ctx.notes["raise_share"] = round(share, 4)
     if share > 0.3:
